@@ -123,21 +123,33 @@ func malformedList() []malformed {
 		return pbDelimited(pbBytes(pbBytes(nil, 1, pbBytes(nil, 2, pubBytes(&m.key.PublicKey))), 2, m.sign(m.s.challenge[:])))
 	}))
 	pubVariants := map[string]func(k *ecdsa.PublicKey, r *rand.Rand) []byte{
-		"empty":       func(k *ecdsa.PublicKey, r *rand.Rand) []byte { return []byte{} },
-		"one-byte":    func(k *ecdsa.PublicKey, r *rand.Rand) []byte { return []byte{4} },
-		"32-bytes":    func(k *ecdsa.PublicKey, r *rand.Rand) []byte { return pubBytes(k)[1:33] },
-		"compressed":  func(k *ecdsa.PublicKey, r *rand.Rand) []byte { return append([]byte{2 + byte(k.Y.Bit(0))}, pubBytes(k)[1:33]...) },
-		"64-bytes":    func(k *ecdsa.PublicKey, r *rand.Rand) []byte { return pubBytes(k)[1:] },
-		"prefix-5":    func(k *ecdsa.PublicKey, r *rand.Rand) []byte { b := pubBytes(k); b[0] = 5; return b },
-		"prefix-0":    func(k *ecdsa.PublicKey, r *rand.Rand) []byte { b := pubBytes(k); b[0] = 0; return b },
-		"hybrid-6":    func(k *ecdsa.PublicKey, r *rand.Rand) []byte { b := pubBytes(k); b[0] = 6 + byte(k.Y.Bit(0)); return b },
-		"zero-point":  func(k *ecdsa.PublicKey, r *rand.Rand) []byte { return append([]byte{4}, make([]byte, 64)...) },
-		"off-curve":   func(k *ecdsa.PublicKey, r *rand.Rand) []byte { b := pubBytes(k); b[64] ^= 1; return b },
-		"x-plus-p":    func(k *ecdsa.PublicKey, r *rand.Rand) []byte { b := pubBytes(k); copy(b[1:33], secpP.FillBytes(make([]byte, 32))); return b },
-		"all-ff":      func(k *ecdsa.PublicKey, r *rand.Rand) []byte { return append([]byte{4}, bytes.Repeat([]byte{0xff}, 64)...) },
-		"66-bytes":    func(k *ecdsa.PublicKey, r *rand.Rand) []byte { return append(pubBytes(k), 0) },
-		"1000-bytes":  func(k *ecdsa.PublicKey, r *rand.Rand) []byte { return append(pubBytes(k), make([]byte, 935)...) },
-		"negated-y":   func(k *ecdsa.PublicKey, r *rand.Rand) []byte { b := pubBytes(k); copy(b[33:], new(big.Int).Sub(secpP, k.Y).FillBytes(make([]byte, 32))); return b },
+		"empty":    func(k *ecdsa.PublicKey, r *rand.Rand) []byte { return []byte{} },
+		"one-byte": func(k *ecdsa.PublicKey, r *rand.Rand) []byte { return []byte{4} },
+		"32-bytes": func(k *ecdsa.PublicKey, r *rand.Rand) []byte { return pubBytes(k)[1:33] },
+		"compressed": func(k *ecdsa.PublicKey, r *rand.Rand) []byte {
+			return append([]byte{2 + byte(k.Y.Bit(0))}, pubBytes(k)[1:33]...)
+		},
+		"64-bytes":   func(k *ecdsa.PublicKey, r *rand.Rand) []byte { return pubBytes(k)[1:] },
+		"prefix-5":   func(k *ecdsa.PublicKey, r *rand.Rand) []byte { b := pubBytes(k); b[0] = 5; return b },
+		"prefix-0":   func(k *ecdsa.PublicKey, r *rand.Rand) []byte { b := pubBytes(k); b[0] = 0; return b },
+		"hybrid-6":   func(k *ecdsa.PublicKey, r *rand.Rand) []byte { b := pubBytes(k); b[0] = 6 + byte(k.Y.Bit(0)); return b },
+		"zero-point": func(k *ecdsa.PublicKey, r *rand.Rand) []byte { return append([]byte{4}, make([]byte, 64)...) },
+		"off-curve":  func(k *ecdsa.PublicKey, r *rand.Rand) []byte { b := pubBytes(k); b[64] ^= 1; return b },
+		"x-plus-p": func(k *ecdsa.PublicKey, r *rand.Rand) []byte {
+			b := pubBytes(k)
+			copy(b[1:33], secpP.FillBytes(make([]byte, 32)))
+			return b
+		},
+		"all-ff": func(k *ecdsa.PublicKey, r *rand.Rand) []byte {
+			return append([]byte{4}, bytes.Repeat([]byte{0xff}, 64)...)
+		},
+		"66-bytes":   func(k *ecdsa.PublicKey, r *rand.Rand) []byte { return append(pubBytes(k), 0) },
+		"1000-bytes": func(k *ecdsa.PublicKey, r *rand.Rand) []byte { return append(pubBytes(k), make([]byte, 935)...) },
+		"negated-y": func(k *ecdsa.PublicKey, r *rand.Rand) []byte {
+			b := pubBytes(k)
+			copy(b[33:], new(big.Int).Sub(secpP, k.Y).FillBytes(make([]byte, 32)))
+			return b
+		},
 	}
 	for _, n := range sortedKeys(pubVariants) {
 		f := pubVariants[n]
@@ -146,27 +158,27 @@ func malformedList() []malformed {
 		}))
 	}
 	sigVariants := map[string]func(sig []byte, r *rand.Rand) []byte{
-		"empty":      func(s []byte, r *rand.Rand) []byte { return nil },
-		"one-byte":   func(s []byte, r *rand.Rand) []byte { return s[:1] },
-		"64-bytes":   func(s []byte, r *rand.Rand) []byte { return s[:64] },
-		"66-bytes":   func(s []byte, r *rand.Rand) []byte { return append(s, 0) },
-		"1000-bytes": func(s []byte, r *rand.Rand) []byte { return append(s, make([]byte, 935)...) },
+		"empty":        func(s []byte, r *rand.Rand) []byte { return nil },
+		"one-byte":     func(s []byte, r *rand.Rand) []byte { return s[:1] },
+		"64-bytes":     func(s []byte, r *rand.Rand) []byte { return s[:64] },
+		"66-bytes":     func(s []byte, r *rand.Rand) []byte { return append(s, 0) },
+		"1000-bytes":   func(s []byte, r *rand.Rand) []byte { return append(s, make([]byte, 935)...) },
 		"100000-bytes": func(s []byte, r *rand.Rand) []byte { return append(s, make([]byte, 100000-65)...) },
-		"v-2":        func(s []byte, r *rand.Rand) []byte { s[64] = 2; return s },
-		"v-3":        func(s []byte, r *rand.Rand) []byte { s[64] = 3; return s },
-		"v-4":        func(s []byte, r *rand.Rand) []byte { s[64] += 4; return s },
-		"v-27":       func(s []byte, r *rand.Rand) []byte { s[64] += 27; return s },
-		"v-228":      func(s []byte, r *rand.Rand) []byte { s[64] = 228; return s },
-		"v-229":      func(s []byte, r *rand.Rand) []byte { s[64] = 229; return s },
-		"v-255":      func(s []byte, r *rand.Rand) []byte { s[64] = 255; return s },
-		"r-zero":     func(s []byte, r *rand.Rand) []byte { copy(s[:32], make([]byte, 32)); return s },
-		"s-zero":     func(s []byte, r *rand.Rand) []byte { copy(s[32:64], make([]byte, 32)); return s },
-		"r-is-n":     func(s []byte, r *rand.Rand) []byte { copy(s[:32], secpN.FillBytes(make([]byte, 32))); return s },
-		"s-is-n":     func(s []byte, r *rand.Rand) []byte { copy(s[32:64], secpN.FillBytes(make([]byte, 32))); return s },
-		"r-all-ff":   func(s []byte, r *rand.Rand) []byte { copy(s[:32], bytes.Repeat([]byte{0xff}, 32)); return s },
-		"s-all-ff":   func(s []byte, r *rand.Rand) []byte { copy(s[32:64], bytes.Repeat([]byte{0xff}, 32)); return s },
-		"all-zero":   func(s []byte, r *rand.Rand) []byte { return make([]byte, 65) },
-		"random":     func(s []byte, r *rand.Rand) []byte { r.Read(s); return s },
+		"v-2":          func(s []byte, r *rand.Rand) []byte { s[64] = 2; return s },
+		"v-3":          func(s []byte, r *rand.Rand) []byte { s[64] = 3; return s },
+		"v-4":          func(s []byte, r *rand.Rand) []byte { s[64] += 4; return s },
+		"v-27":         func(s []byte, r *rand.Rand) []byte { s[64] += 27; return s },
+		"v-228":        func(s []byte, r *rand.Rand) []byte { s[64] = 228; return s },
+		"v-229":        func(s []byte, r *rand.Rand) []byte { s[64] = 229; return s },
+		"v-255":        func(s []byte, r *rand.Rand) []byte { s[64] = 255; return s },
+		"r-zero":       func(s []byte, r *rand.Rand) []byte { copy(s[:32], make([]byte, 32)); return s },
+		"s-zero":       func(s []byte, r *rand.Rand) []byte { copy(s[32:64], make([]byte, 32)); return s },
+		"r-is-n":       func(s []byte, r *rand.Rand) []byte { copy(s[:32], secpN.FillBytes(make([]byte, 32))); return s },
+		"s-is-n":       func(s []byte, r *rand.Rand) []byte { copy(s[32:64], secpN.FillBytes(make([]byte, 32))); return s },
+		"r-all-ff":     func(s []byte, r *rand.Rand) []byte { copy(s[:32], bytes.Repeat([]byte{0xff}, 32)); return s },
+		"s-all-ff":     func(s []byte, r *rand.Rand) []byte { copy(s[32:64], bytes.Repeat([]byte{0xff}, 32)); return s },
+		"all-zero":     func(s []byte, r *rand.Rand) []byte { return make([]byte, 65) },
+		"random":       func(s []byte, r *rand.Rand) []byte { r.Read(s); return s },
 	}
 	for _, n := range sortedKeys2(sigVariants) {
 		f := sigVariants[n]
